@@ -64,10 +64,14 @@ func propC20(c *Ctx) {
 		c.Check("R20.1", "loadTasks/enabled-test", appendCall.Pos(), len(enT) > 0 && guardedByEdges(lt, appendCall, enT), "a task is built only when the integration's Enabled flag is set")
 		// look-ups
 		nLk := 0
-		allInstrs(lt, func(in ssa.Instruction) {
+		lm.reg.AllInstrs(func(in ssa.Instruction) {
 			lk, ok := in.(*ssa.Lookup)
 			if !ok || !lk.CommaOk {
 				return
+			}
+			lfn := lk.Parent()
+			if !isRepoFunc(lfn) || lfn.Pkg == nil || lfn.Pkg != lt.Pkg {
+				return // look-ups inside other packages' functions are not part of assembling the tasks
 			}
 			if _, isMap := lk.X.Type().Underlying().(*types.Map); !isMap {
 				return
@@ -82,20 +86,28 @@ func propC20(c *Ctx) {
 			good := okV != nil
 			if okV != nil {
 				t, f := boolEdges(okV)
-				good = guardedByEdges(lt, appendCall, t) && len(f) > 0
+				good = len(f) > 0
 				for _, e := range f {
-					if g, _ := errorArmLeaves(lt, e, t, nil); !g {
+					if g, _ := errorArmLeaves(lfn, e, t, nil); !g {
 						good = false
+					}
+				}
+				if lfn == lt {
+					good = good && guardedByEdges(lt, appendCall, t)
+				} else {
+					// in a helper: its error is handed on and the task is appended only when it is nil
+					site, _ := lm.reg.Lift(lk).(*ssa.Call)
+					if site == nil || !callErrorArmReturns(site) {
+						good = false
+					} else if e, has := errResult(site); has && e != nil {
+						isNil, _ := nilTestEdges(e)
+						good = good && guardedByEdges(lt, appendCall, isNil)
 					}
 				}
 			}
 			// keyed by the source reference's name
-			_, chain := fieldChain(lk.Index)
-			keyOK := chainIs(chain, fName)
-			if keyOK {
-				root, _ := fieldChain(lk.Index)
-				keyOK = lm.isSourceRefElem(root)
-			}
+			kroot, chain := lm.chain(lk.Index)
+			keyOK := chainIs(chain, fName) && lm.isSourceRefElem(kroot)
 			c.Check("R20.1", fmt.Sprintf("loadTasks/lookup#%d", nLk), lk.Pos(), good && keyOK, "look-up by the source reference's Name; a missing entry is a start-up error, not a silently missing task")
 		})
 		if nLk < 2 {
@@ -153,7 +165,7 @@ func propC20(c *Ctx) {
 				{
 					if e, ok := cv.(*ssa.Extract); ok {
 						if lk, ok := e.Tuple.(*ssa.Lookup); ok {
-							if call, k := resultOf(lk.X); call != nil && k == 0 {
+							if call, k := resultOf(lm.val(lk.X)); call != nil && k == 0 {
 								if f := staticCallee(call); f != nil && f.Name() == "AllSourcesByName" {
 									fromLookup = true
 								}
@@ -189,7 +201,7 @@ func propC20(c *Ctx) {
 			good := false
 			if e, ok := lm.val(o.Call.Args[0]).(*ssa.Extract); ok {
 				if lk, ok := e.Tuple.(*ssa.Lookup); ok {
-					root, chain := fieldChain(lk.Index)
+					root, chain := lm.chain(lk.Index)
 					good = chainIs(chain, fName) && lm.isSourceRefElem(root)
 				}
 			}
